@@ -8,6 +8,7 @@
 # pylint doesn't know about __init__ generated with dataclass
 # pylint:disable=unexpected-keyword-arg,no-value-for-parameter
 import builtins
+import copy
 import dataclasses
 import datetime
 import decimal
@@ -1011,8 +1012,14 @@ class DateTime(_BaseDateTime, dtypes.Timestamp):
         data_container: Optional[PandasObject] = None,
     ) -> Union[bool, Iterable[bool]]:
         if self.time_zone_agnostic:
-            self._prepare_check_time_zone_agnostic(
+            # resolve the data-dependent type on a private copy: the dtype
+            # object itself is shared by every validation of the schema
+            resolved = copy.copy(self)
+            resolved._prepare_check_time_zone_agnostic(
                 pandera_dtype=pandera_dtype, data_container=data_container
+            )
+            return super(DateTime, resolved).check(
+                pandera_dtype, data_container
             )
         return super().check(pandera_dtype, data_container)
 
